@@ -318,7 +318,6 @@ class Oracle:
         snap = o["snap"]
         prev = self.prev
         self.prev = snap
-        self.held_before = {}
         if o["exc"]:
             fail("exception-escaped", "an exception escaped the transport-facing call", o["exc"][-800:])
         c = ev[1] if kind in ("Grant", "Msg", "Top", "Drop") else None
@@ -490,18 +489,27 @@ class Oracle:
                     h[1] -= n
                     if h[1] == 0:
                         del self.held[c][k]
-        # ---- "every other ... method name ... fails that request": a method name that is not UTF-8 is just another unknown name
+        # ---- "every other object id, name, method name or class name fails THAT REQUEST": the only inbound call that may cost the
+        # peer its connection is a protocol error (a NEG token inside a your-reference); C06_dropped_only_for_protocol_error
         if kind == "Msg" and o["out"] == "Aborted" and prev is not None:
             try:
                 bytes(ev[4]).decode("utf-8")
                 undecodable = False
             except UnicodeDecodeError:
                 undecodable = True
-            h_ = self.held_before.get(ev[3]) if ev[3] != 0 else True
-            bad_yourref = any(a[0] == "Y" and (a[1] < 0 or (a[1] != 0 and a[1] not in prev[c])) for a in ev[5])
-            if undecodable and (ev[3] == 0 or (ev[3] > 0 and ev[3] in prev[c])) and not bad_yourref:
-                fail("undecodable-name-dropped-connection", "a call to the held id %r with a method name that is not UTF-8 (%r) did "
-                     "not fail on its own: the connection %s was dropped (table before: %r)" % (ev[3], ev[4], c, prev[c]))
+            neg_yourref = any(a[0] == "Y" and a[1] < 0 for a in ev[5])
+            unknown_yourref = [a[1] for a in ev[5] if a[0] == "Y" and a[1] > 0 and a[1] not in prev[c]]
+            if not neg_yourref:
+                if unknown_yourref:
+                    fail("unknown-yourref-drops-connection", "a request whose fault is a your-reference argument naming the unknown id "
+                         "%r did not fail on its own: the whole connection %s was dropped (the peer's table %r is lost)"
+                         % (unknown_yourref, c, prev[c]))
+                elif undecodable:
+                    fail("undecodable-name-dropped-connection", "a call to id %r with a method name that is not UTF-8 (%r) did "
+                         "not fail on its own: the connection %s was dropped (table before: %r)" % (ev[3], ev[4], c, prev[c]))
+                else:
+                    fail("connection-dropped-without-protocol-error", "the well-formed call %r cost the peer its connection %s "
+                         "(table before: %r)" % (ev[:6], c, prev[c]))
         # ---- refusals have no side effects
         if o["out"] in ("Reject", "Dead") and not unchanged:
             fail("refusal-changed-tables", "%s changed the tables: before %r after %r" % (o["out"], prev, snap))
@@ -842,8 +850,7 @@ REFUSED_EFFECTS_SIG = "oracle/refused-request-left-proxy-or-dial"
 def refused_effects_probe(ctx, impl):
     """Replays the witness of C06_refusal_pure_full_refuted on the real code: a request that is REFUSED because of a later
     argument has already created a proxy in its connection's yourReferenceByCLID, made the Tub dial the gift's URL and
-    instantiated a registered class.  Reported as a violation only once the lead has listed the signature in
-    known_findings.json (until then: a note and an evidence entry, so the clean tree stays exit 0)."""
+    instantiated a registered class.  Listed in known_findings.json (status known): printed as KNOWN-FINDING."""
     B_ = lambda t: list(t.encode())
     hist = [["Grant", "A", 1, ""], ["RegisterCopy", "my.rc1", 1],
             ["Msg", "A", 1, 1, B_("hi"), [["M", 5], ["T", 1, True], ["C", "my.rc1"], ["O", "instance"]]]]
@@ -859,55 +866,11 @@ def refused_effects_probe(ctx, impl):
     left = dict(out=o["out"], proxies=o["snap"]["yoursA"], dials=o["dials"], instantiated=o["inst"])
     ctx.extra["refused_request_effects"] = left
     if o["out"] == "Reject" and (left["proxies"] or left["dials"] or left["instantiated"]):
-        what = ("a request refused because of a LATER argument (unknown OPEN type) had already %r; history %r" % (left, hist))
-        if ("C06", REFUSED_EFFECTS_SIG) in common.load_known():
-            ctx.fail(REFUSED_EFFECTS_SIG, what, replay=dict(history=hist, left=left))
-        else:
-            ctx.note("candidate finding (not listed in known_findings.json, so only noted): " + what[:400])
+        ctx.fail(REFUSED_EFFECTS_SIG, "a request refused because of a LATER argument (unknown OPEN type) had already %r; history %r"
+                 % (left, hist), replay=dict(history=hist, left=left))
     elif o["out"] != "Reject":
         ctx.fail("oracle/refuted-witness-not-refused", "the witness of C06_refusal_pure_full_refuted was not refused: %r" % (left,),
                  replay=dict(history=hist, left=left))
-
-
-YOURREF_DROP_SIG = "oracle/unknown-yourref-drops-connection"
-
-
-def unknown_yourref_probe(ctx, impl):
-    """Replays the witness of C06_unknown_yourref_drops_connection_refuted on the real code: a call to a HELD object whose only
-    fault is a your-reference ARGUMENT naming an id the connection's table does not hold.  The property says that request
-    fails; the code drops the whole connection (KeyError escapes YourReferenceUnslicer.receiveClose): the peer's other
-    references on it are lost and the request gets no error answer.  Reported as a violation only once the lead has listed
-    the signature in known_findings.json (until then: a note and an evidence entry, so the clean tree stays exit 0)."""
-    B_ = lambda t: list(t.encode())
-    hist = [["Grant", "A", 1, ""], ["Grant", "A", 2, ""], ["Msg", "A", 5, 1, B_("hi"), [["Y", 99]]], ["Msg", "A", 6, 2, B_("hi"), []]]
-    sysm = impl.System()
-    outs, before, after, answered = [], None, None, None
-    try:
-        for ev in hist:
-            ev = list(ev)
-            if ev[0] == "Grant":
-                ev[3] = sysm.next_swiss()
-            o = sysm.do(ev)
-            outs.append(o["out"])
-            if ev[0] == "Msg" and ev[2] == 5:
-                after, answered = o["snap"]["A"], o["answered"]["A"]
-            elif ev[0] == "Grant":
-                before = o["snap"]["A"]
-    finally:
-        sysm.close()
-    seen = dict(outcomes=outs, table_before=before, table_after=after, error_answer_sent=answered)
-    ctx.extra["unknown_yourref_argument"] = seen
-    if outs[2] == "Aborted":
-        what = ("a request whose only fault is a your-reference argument with an unknown id did not fail on its own: the whole "
-                "connection was dropped (the peer's %d other references lost, later request %r): %r; history %r"
-                % (len(before or {}), outs[3], seen, hist))
-        if ("C06", YOURREF_DROP_SIG) in common.load_known():
-            ctx.fail(YOURREF_DROP_SIG, what, replay=dict(history=hist, seen=seen))
-        else:
-            ctx.note("candidate finding (not listed in known_findings.json, so only noted): " + what[:500])
-    elif outs[2] != "Reject":
-        ctx.fail("oracle/refuted-witness-not-refused", "the witness of C06_unknown_yourref_drops_connection_refuted was neither "
-                 "refused nor dropped: %r" % (seen,), replay=dict(history=hist, seen=seen))
 
 
 REDECLARE_SIG = "oracle/interface-redeclared-after-use-ignored"
@@ -990,7 +953,8 @@ def _run(ctx):
         "C05 / C14); a gift naming THIS Tub is modelled like any other dial (UOwn), not generated",
         "the dispatcher of the model is assembled from Gallina terms translated statement by statement from getMyReferenceByCLID, "
         "CallUnslicer.receiveChild stages 1-2, Broker._doCall, Referenceable.doRemoteCall, YourReferenceUnslicer.receiveClose, "
-        "Broker.remote_decref (translate/g_reachdisp.py); hand-modelled and tied by the correspondence only: the clid-0 path "
+        "Broker.remote_decref, Tub._assignName, Tub.getReferenceForName (translate/g_reachdisp.py; the loop over nameLookupHandlers is "
+        "translated for ONE registered handler, which is what the fixture registers); hand-modelled and tied by the correspondence only: the clid-0 path "
         "(RIBroker schema), the mapping exception -> Reject / connection dropped, token-type checks (checkToken), truthiness of "
         "application objects (assumed true), RemoteInterface schemas (unconstrained in the fixture; C02)",
         "Tub.generateSwissnumber is replaced per Tub instance by a counter so that model and implementation can be compared; "
@@ -1078,7 +1042,6 @@ def _run(ctx):
         correspond_decref(ctx)
     redeclare_probe(ctx, impl)
     refused_effects_probe(ctx, impl)
-    unknown_yourref_probe(ctx, impl)
     unguessable_names(ctx, impl)
     if not ok and len(ctx.failures) == before:
         ctx.fail("proof-broken", "theorem closure props/C06.vo no longer builds against the regenerated gen/ReachGen.v:\n" + log[-2500:],
